@@ -23,6 +23,7 @@ class RunResult:
         self.known = []         # (Finding, text)
         self.lines = []
         self.ctx = None
+        self.rule_errors = []   # (rule id, text): rules that could not be applied
 
 
 def analyse(prop, root, tier="quick", overlay=None, only_rule=None, ctx=None):
@@ -37,10 +38,17 @@ def analyse(prop, root, tier="quick", overlay=None, only_rule=None, ctx=None):
             if only_rule and rule_id != only_rule:
                 continue
             out = RuleOut(rule_id, title)
-            fn(ctx, out)
-            if out.instances < floor and not out.findings:
-                raise AnalysisError(f"rule {rule_id}: analysed {out.instances} instances, floor is {floor} "
-                                    f"(a rule that matches nothing passes vacuously)")
+            try:
+                fn(ctx, out)
+                if out.instances < floor and not out.findings:
+                    raise AnalysisError(f"rule {rule_id}: analysed {out.instances} instances, floor is {floor} "
+                                        f"(a rule that matches nothing passes vacuously)")
+            except AnalysisError as e:
+                # one rule that cannot be applied must not hide what the other rules found: remembered, decided in finish()
+                res.rule_errors.append((rule_id, f"{e}"))
+                if out.findings:
+                    res.outs.append(out)
+                continue
             res.outs.append(out)
     except AnalysisError as e:
         res.error = f"{e}"
@@ -58,6 +66,10 @@ def decide(res, known_path=None):
                 res.known.append((f, known[k]))
             else:
                 res.violations.append(f)
+    # a rule that could not be applied makes the run analysis-broken — unless another rule reports a violation, which is the
+    # more specific answer (the broken rule is then listed with it)
+    if res.rule_errors and not res.violations:
+        res.error = "; ".join(f"{m}" for _, m in res.rule_errors)
     return res
 
 
@@ -93,6 +105,11 @@ def main(argv=None):
         print(f"ANALYSIS-ERROR property={prop} {res.error}")
         return 2
     decide(res)
+    if res.error:
+        print(f"ANALYSIS-ERROR property={prop} {res.error}")
+        return 2
+    for rid, msg in res.rule_errors:
+        print(f"  (rule {rid} could not be applied: {msg})")
 
     selftest = None
     if args.tier == "thorough" and not args.no_selftest:
